@@ -787,12 +787,17 @@ func VerifC07() {
 	}
 	// requested name: one of the provider names, the holder's own name, or an absent name
 	var req string
-	c := nd.Choose(k + 2)
+	c := nd.Choose(k + 3)
 	switch {
 	case c < k:
 		req = vProviderName(ps[c])
 	case c == k:
 		req = "nobody"
+	case c == k+1:
+		// the default (package/type) name of the first provider's type: a component that declares a custom
+		// name is registered under that name only
+		req = vDefaultName(ps[0])
+		nd.Cover("default type name of a provider requested")
 	default:
 		req = "holder"
 	}
@@ -1454,4 +1459,65 @@ func VerifC06FirstField() {
 	}
 	nd.Assert(cInner == 1 && len(outer.Others) == want && (!withPA || cPA == 1), "C06: a slice point receives every compatible component exactly once, except the holder itself")
 	nd.Cover("component at the holder's address")
+}
+
+func vDefaultName(c any) string {
+	switch c.(type) {
+	case *vPA:
+		return "github.com/go-kid/ioc/container/factory/vPA"
+	case *vPB:
+		return "github.com/go-kid/ioc/container/factory/vPB"
+	case *vPC:
+		return "github.com/go-kid/ioc/container/factory/vPC"
+	}
+	return "github.com/go-kid/ioc/container/factory/vPP"
+}
+
+// C05: a processor that substitutes the component BEFORE initialization by a decorator which forwards
+// the init methods: AfterPropertiesSet and Init still run exactly once, on what goes on through the lifecycle
+type vSvcInit struct {
+	aps, inits int
+}
+
+func (s *vSvcInit) AfterPropertiesSet() error { s.aps++; return nil }
+func (s *vSvcInit) Init() error               { s.inits++; return nil }
+
+type vSvcDecor struct{ *vSvcInit }
+
+type vSubstProc struct {
+	processors.DefaultInstantiationAwareComponentPostProcessor
+}
+
+func (p *vSubstProc) LazyInit() {}
+func (p *vSubstProc) PostProcessBeforeInitialization(c any, n string) (any, error) {
+	if s, ok := c.(*vSvcInit); ok {
+		return &vSvcDecor{s}, nil
+	}
+	return c, nil
+}
+func (p *vSubstProc) PostProcessAfterInitialization(c any, n string) (any, error) { return c, nil }
+
+func VerifC05Substitute() {
+	f := &defaultFactory{
+		definitionRegistry:                support.DefaultDefinitionRegistry(),
+		singletonComponentRegistry:        support.DefaultSingletonComponentRegistry(),
+		postProcessorRegistrationDelegate: NewPostProcessorRegistrationDelegate(),
+		allowCircularReferences:           true,
+	}
+	svc := &vSvcInit{}
+	substitute := nd.Bool()
+	if substitute {
+		f.postProcessorRegistrationDelegate.RegisterComponentPostProcessors(&vSubstProc{}, "subst")
+	}
+	f.definitionRegistry.GetMetaOrRegister("svc", svc)
+	nd.Assert(f.postProcessorRegistrationDelegate.InvokeBeanFactoryPostProcessors(f, nil) == nil, "processor activation ok")
+	nd.Assert(f.Refresh() == nil, "start ok")
+	nd.Assert(svc.aps == 1 && svc.inits == 1, "C05: AfterPropertiesSet and Init run exactly once, also when a processor substitutes the component before initialization")
+	got, err := f.GetComponentByName("svc")
+	nd.Assert(err == nil, "lookup ok")
+	if substitute {
+		_, isDecor := got.(*vSvcDecor)
+		nd.Assert(isDecor, "C03: the lookup returns the version the container finally publishes")
+		nd.Cover("component substituted before initialization")
+	}
 }
